@@ -152,6 +152,60 @@ fn c18_all() {
             Err(e) => { println!("WITNESS {} ; source: {:?}", e, src); ok = false; }
         }
     }
+    // ---- normalisation against a description that renders BOTH the comment (in several physical layouts) and the expected text:
+    // lines of a paragraph joined by single spaces, paragraphs separated by newlines, every @tag clause on a line of its own ----
+    let paras: [&[&[&str]]; 5] = [
+        &[&["Returns the size"]],
+        &[&["Title \u{e9}"], &["Details line1", "d\u{e9}tails \u{6f22}\u{5b57} \u{1f642}"]],
+        &[&["one", "two", "three"]],
+        &[&["a b"], &["c"], &["d e", "f"]],
+        &[],
+    ];
+    let tagsets: [&[&str]; 4] = [&[], &["@param key the key"], &["@param key the key", "@return size \u{e9}"], &["@deprecated"]];
+    for ps in paras.iter() { for tags in tagsets.iter() {
+        if ps.is_empty() && tags.is_empty() { continue; }
+        let mut want = ps.iter().map(|lines| lines.join(" ")).collect::<Vec<_>>().join("\n");
+        for t in tags.iter() { if !want.is_empty() { want.push('\n'); } want += t; }
+        let mut layouts: Vec<(String, String)> = Vec::new();
+        for nl in ["\n", "\r\n"].iter() {
+            // decorated, one physical line per line of text, a ` *` line between paragraphs, tags on their own lines
+            let mut body = String::new();
+            for (i, lines) in ps.iter().enumerate() { if i > 0 { body += &format!(" *{}", nl); } for l in lines.iter() { body += &format!(" * {}{}", l, nl); } }
+            for t in tags.iter() { body += &format!(" * {}{}", t, nl); }
+            layouts.push((format!("decorated {:?}", nl), format!("/**{}{} */", nl, body)));
+            // the same with every tag appended to the physical line in front of it
+            if !tags.is_empty() && !ps.is_empty() {
+                let mut body = String::new();
+                for (i, lines) in ps.iter().enumerate() { if i > 0 { body += &format!(" *{}", nl); } for (j, l) in lines.iter().enumerate() {
+                    let last = i + 1 == ps.len() && j + 1 == lines.len();
+                    body += &format!(" * {}{}{}", l, if last { format!(" {}", tags.join(" ")) } else { String::new() }, nl); } }
+                layouts.push((format!("tags behind the last line {:?}", nl), format!("/**{}{} */", nl, body)));
+            }
+            // text starting on the opening line
+            if !ps.is_empty() {
+                let mut body = String::new(); let mut first = true;
+                for (i, lines) in ps.iter().enumerate() { if i > 0 { body += &format!(" *{}", nl); } for l in lines.iter() { if first { body += &format!(" {}{}", l, nl); first = false; } else { body += &format!(" * {}{}", l, nl); } } }
+                for t in tags.iter() { body += &format!(" * {}{}", t, nl); }
+                layouts.push((format!("text on the opening line {:?}", nl), format!("/**{} */", body)));
+            }
+        }
+        // everything on one physical line (a single paragraph of one line, or tags only)
+        if ps.len() <= 1 && ps.iter().all(|l| l.len() == 1) {
+            let mut parts: Vec<String> = ps.iter().map(|l| l[0].to_string()).collect(); parts.extend(tags.iter().map(|t| t.to_string()));
+            layouts.push(("one line".to_string(), format!("/** {} */", parts.join(" "))));
+            layouts.push(("one line, tab before tags".to_string(), format!("/** {} */", parts.join("\t"))));
+        }
+        for (lname, doc) in layouts.iter() {
+            for (kind, before, after) in [("method", "package p; interface I { void a(); ", "void f(int key); }"), ("item-enum", "package p; ", "enum E { Z }"), ("field", "package p; parcelable P { int a; ", "int x; }"), ("arg", "package p; interface I { void f(int a, ", "int b); }")].iter() {
+                let src = format!("{}{} {}", before, doc, after);
+                n += 1;
+                match doc_of(&src, kind) {
+                    Ok(got) => if got.as_deref() != Some(want.as_str()) { println!("WITNESS {} doc ({}) = {:?}, expected {:?}; source: {:?}", kind, lname, got, want, src); ok = false; },
+                    Err(e) => { println!("WITNESS {} ; source: {:?}", e, src); ok = false; }
+                }
+            }
+        }
+    } }
     println!("cases: {}", n);
     assert!(ok, "witness found");
 }
